@@ -280,6 +280,8 @@ def zipper(a, b, opts_svd=None, normalize=True, return_discarded=False) -> MpsMp
     if a.N != b.N:
         raise YastnError('Zipper: Mpo and Mpo/Mps must have the same number of sites to be multiplied.')
 
+    if opts_svd is None:
+        opts_svd = {}  # no truncation beyond the defaults of truncation_mask
     psi = b.shallow_copy()
     psi.canonize_(to='last', normalize=normalize)
     if not normalize:
